@@ -67,6 +67,10 @@ class Engine(EngineBase, ExprMixin, StmtMixin, CallMixin, PreludeMixin, FoldMixi
             if p.startswith('^'):
                 fr.closure[p[1:]] = self.symbolic(st, self.reg.kind(k), p[1:])
         st.env = dict(env)
+        self.is_generator = any(isinstance(n, (ast.Yield, ast.YieldFrom)) for n in ast.walk(node))
+        if self.is_generator:
+            # generator executed eagerly to the list of yielded values (DESIGN 3.2)
+            st.env['_yielded'] = ops.empty_of(self.reg.kind(c.types['_yielded']))
         for aname, atext, _ in self.reg.axioms_text:
             af = self.spec_frame(None, 'axiom:' + aname, None, {})
             saved_env = st.env
@@ -93,6 +97,8 @@ class Engine(EngineBase, ExprMixin, StmtMixin, CallMixin, PreludeMixin, FoldMixi
         for s, oc in outs:
             if oc[0] in ('return', 'next'):
                 res = oc[1] if oc[0] == 'return' else None
+                if self.is_generator:
+                    res = s.env['_yielded']
                 self.check_post(s, fr, c, mod, cname, entry_env, res, c.ensures, 'ensures')
                 self.check_frame(s, fr, c, mod, cname, entry_env)
             elif oc[0] == 'raise':
@@ -123,6 +129,12 @@ class Engine(EngineBase, ExprMixin, StmtMixin, CallMixin, PreludeMixin, FoldMixi
                 pass
         sf = self.spec_frame(mod, c.qual, cname, entry_env, old=({}, entry_env), result=res)
         saved = st.env
+        # ghost results: the witness is an expression over the function's final locals
+        for g, (gk, gexpr) in c.ghost_out.items():
+            wf = self.spec_frame(mod, c.qual, cname, dict(entry_env))
+            wf.closure.update(saved)
+            st.env = {}
+            sf.closure[g] = self.coerce_to(st, self.ev1(self.parse_spec(gexpr), st, wf), self.reg.kind(gk))
         st.env = {}
         try:
             for j, text, tags in self.clauses(ensures):
